@@ -248,6 +248,17 @@ def run_calibration(prog, rep):
     if not nconv:
         cprobs.append('no converting path')
     rule.check(not cprobs, 'convertData|converts', rep.where(cvf), cvf.q, 'every returning path converts nelms elements from memtype(source) to memtype(destination) in place and checks the result', '; '.join(sorted(set(cprobs))[:2]))
+    # the calibrated branch works on doubles in the caller's buffer: it must have refused text elements (std::string objects) before
+    io0 = prog.fn('nix::DataArray::ioRead')
+    apc = [c for c in io0.calls() if (c.callee or {}).get('name') == 'getDataDirect']
+    calib = [c for c in apc if "'nix::DataType::Double'" in repr([term(unwrap(a)) for a in real_args(c) if a is not None][:1])]
+    if not calib:
+        raise AnalysisBroken('R-CALIB: the Double read of the calibrated branch was not found')
+    fct = Sem(prog).facts_at(io0, calib[0].id)
+    dt = io0.params[0]['name']
+    nostr = any(isinstance(t, tuple) and len(t) == 4 and t[0] in ('b', 'op') and dt in repr(t) and "'nix::DataType::String'" in repr(t) and ((t[1] == '==' and pol is False) or (t[1] == '!=' and pol is True)) for t, pol in fct)
+    rule.check(nostr, 'DataArray::ioRead|no-text', rep.where(calib[0]), io0.q, 'the calibrated branch is entered only for a non-String request',
+               'the calibrated branch reads doubles into the caller\'s buffer without having refused DataType::String: for a std::string buffer this overwrites string objects (crash when they are destroyed)')
     io = prog.fn('nix::DataArray::ioRead')
     it = GenericInterp(prog, watch=lambda n: (n.callee or {}).get('name') in ('getDataDirect', 'applyPolynomial', 'convertData', 'memcpy'))
     res = it.enumerate(io, this='THIS', args=[('dtype',), ('data',), ('count',), ('offset',)])
